@@ -2026,12 +2026,15 @@ protected:    // interface for the derived class
                 // attempt to go back to the situation prior to processing, 
                 // in case some deferred events would have been re-queued
                 // in that case those would have a higher sequence number
+                // the sequence counter wraps around: compare the distances to the current sequence
+                const char cur = m_events_queue.m_cur_seq;
                 std::stable_sort(
                     m_events_queue.m_deferred_events_queue.begin(),
                     m_events_queue.m_deferred_events_queue.end(),
-                    [](typename deferred_events_queue_t::value_type const& d1, typename deferred_events_queue_t::value_type const& d2)
+                    [cur](typename deferred_events_queue_t::value_type const& d1, typename deferred_events_queue_t::value_type const& d2)
                     {
-                        return d1.second > d2.second;
+                        return static_cast<unsigned char>(d1.second - cur) >
+                               static_cast<unsigned char>(d2.second - cur);
                     }
                 );
                 // reset sequence number for all
